@@ -416,8 +416,12 @@ def kvs (j : Json) : Except String (List (List Char × Val)) := do
     return ((← txt a[0]!), (← val a[1]!))
 
 def template (j : Json) : Except String Template := do
+  -- construction-time keyword arguments and mapping, when given, make the defaults (initvars)
+  let globals ← match j.getObjVal? "ckw" with
+    | .ok ck => do pure (Render.initvars (← kvs ck) (← kvs (← j.getObjVal? "cmapping")))
+    | .error _ => kvs (← j.getObjVal? "globals")
   return { blocks := ← (← (← j.getObjVal? "blocks").getArr?).toList.mapM blk,
-           globals := ← kvs (← j.getObjVal? "globals"), vars := ← kvs (← j.getObjVal? "vars") }
+           globals := globals, vars := ← kvs (← j.getObjVal? "vars") }
 
 def jPiece : Piece → Json
   | .text s => Json.mkObj [("s", jText s)]
